@@ -358,6 +358,8 @@ pub fn rand_params(rng: &mut Rng, grid: bool) -> kp::Params {
             2 => -10000,
             3 => rng.range_i32(-500, 2000),
             4 => 9999,
+            // beyond the range: TeX clamps every break penalty (<= -10000 forces, >= 10000 forbids)
+            5 => *rng.pick(&[-10001, -20000, 10001, 30000]),
             _ => 50,
         };
         p.ex_hyphen_penalty = match rng.below(10) {
@@ -365,6 +367,7 @@ pub fn rand_params(rng: &mut Rng, grid: bool) -> kp::Params {
             1 => 10000,
             2 => -10000,
             3 => rng.range_i32(-500, 2000),
+            4 => *rng.pick(&[-10001, -20000, 10001, 30000]),
             _ => 50,
         };
         p.adj_demerits = match rng.below(8) {
